@@ -29,6 +29,10 @@ type evPlan struct {
 	Writes   []evWrite `json:"writes"`
 	Consume  []int     `json:"consume"` // per callback invocation (cycled): -1 all, 0 nothing, n>0 at most n bytes, -2 half
 	StallMs  int       `json:"reader_stall_ms,omitempty"`
+	// HoldBytes > 0: the callback consumes nothing until it is shown at least this many bytes at once (the read buffer
+	// has to grow beyond them), then takes everything (the buffer may shrink) and goes on with the Consume pattern
+	// while the writer is still sending
+	HoldBytes int `json:"hold_bytes,omitempty"`
 }
 
 type evconnScenario struct{}
@@ -82,6 +86,21 @@ func (evconnScenario) Gen(r *Rng, tier string, opts map[string]string) interface
 	nc := 1 + r.Intn(5)
 	for i := 0; i < nc; i++ {
 		p.Consume = append(p.Consume, r.Pick(-1, -1, -2, 0, 1, 7, 8, 100, 5000, 70000))
+	}
+	if big && r.Chance(1, 2) {
+		// grow, shrink, carry on: several MiB pile up unconsumed, are taken in one go while more is arriving, and the
+		// callbacks that follow leave partial tails behind
+		p.HoldBytes = r.Pick((4<<20)+1, 5<<20, (6<<20)+12345)
+		p.Writes = nil
+		for total, goal := 0, p.HoldBytes+r.Pick(1<<20, 2<<20, 3<<20); total < goal; {
+			sz := r.Pick(300000, 1<<20, (1<<20)+1, 2<<20)
+			p.Writes = append(p.Writes, evWrite{Sizes: []int{sz}})
+			total += sz
+		}
+		p.Consume = nil
+		for i := 0; i < 2+r.Intn(3); i++ {
+			p.Consume = append(p.Consume, r.Pick(-2, 1, 100, 5000, 70000, 300000))
+		}
 	}
 	if r.Chance(1, 4) {
 		p.StallMs = r.Pick(5, 100, 1500)
@@ -146,6 +165,8 @@ func evByte(i int64) byte {
 }
 
 type evReader struct {
+	held     bool // HoldBytes reached and taken
+	bufLen   int  // length of the connection's read buffer at the previous callback
 	plan     *evPlan
 	consumed int64 // bytes committed so far
 	offered  int64 // highest stream position ever shown to the callback
@@ -172,8 +193,27 @@ func (e *evReader) onEventData(buf []byte, conn eventConn) error {
 		simrt.Fail("C18.invented", "the callback was shown %d bytes but only %d were written", e.offered, *e.written)
 		return nil
 	}
+	if h, ok := conn.(*connEventHandler); ok {
+		l := len(h.readBuffer)
+		if l > 4<<20 {
+			simrt.Count("probe.ev_read_buffer_over_4MiB", 1)
+		}
+		if l > e.bufLen && e.bufLen != 0 {
+			simrt.Count("probe.ev_read_buffer_grew", 1)
+		}
+		if l < e.bufLen {
+			simrt.Count("probe.ev_read_buffer_shrank", 1)
+		}
+		e.bufLen = l
+	}
 	n := len(buf)
-	if !e.drain && len(e.plan.Consume) > 0 {
+	if !e.drain && e.plan.HoldBytes > 0 && !e.held {
+		if len(buf) < e.plan.HoldBytes {
+			n = 0
+		} else {
+			e.held = true
+		}
+	} else if !e.drain && len(e.plan.Consume) > 0 {
 		c := e.plan.Consume[(e.calls-1)%len(e.plan.Consume)]
 		switch {
 		case c == -1:
